@@ -65,6 +65,9 @@ func Sign(r io.Reader, signer *openpgp.Entity, opts crypto.SignerOpts, role stri
 		} else if err != nil {
 			return nil, err
 		}
+		if hdr.Size < 0 {
+			return nil, errors.New("ar member has a negative size")
+		}
 		name := path.Clean(hdr.Name)
 		if name == filename {
 			// mark the old signature for removal
